@@ -196,6 +196,8 @@ Inductive ckind :=
 | KNotFound     (* external utility that does not exist *)
 | KEmpty        (* redirections only: performed in a subshell *)
 | KExec         (* exec without operands: redirections persist *)
+| KAsync        (* cmd & : the command and its redirections run in a child process
+                   whose standard input is /dev/null *)
 | KExecFail (interactive : bool).
                 (* exec with an operand that cannot be invoked: the redirections
                    persist as well (Result::retain_redirs); a shell that is not
@@ -237,6 +239,17 @@ Definition stderr_write (s : kst) : kst :=
       end
   end.
 
+(* path key of /dev/null *)
+Definition DEVNULL : N := 10.
+
+(* item.rs async_body: the child closes descriptor 0 and opens /dev/null (which
+   then is descriptor 0; a failure is ignored), then performs the redirections.
+   Result: the child when it stops, and what the command body sees. *)
+Definition async_child (nc : bool) (s : kst) (rs : list redir) : kst * option kst :=
+  let sc := fst (k_open (k_close s 0) (PKey DEVNULL) true false fl_none) in
+  let '(c1, _, cok) := perform_redirs nc sc rs [] in
+  if cok then (c1, Some c1) else (stderr_write c1, None).
+
 (* What one command does to the shell process.  Result: the state afterwards,
    the state seen by the command body while it runs (if it runs and can be
    observed), and whether the shell exits because of the command. *)
@@ -248,6 +261,11 @@ Definition run_cmd (nc : bool) (s : kst) (c : cmd) : kst * option kst * bool :=
          parent's table is not involved, the file system is shared *)
       let s2 := if ok then s1 else stderr_write s1 in
       (mkK (k_tab s) (k_lim s) (k_flt s2) (k_next s2) (k_ofd s2) (k_fs s2), None, false)
+  | KAsync =>
+      (* the parent's table is not involved; files and descriptions are shared *)
+      let r := async_child nc s (c_redirs c) in
+      (mkK (k_tab s) (k_lim s) (k_flt (fst r)) (k_next (fst r)) (k_ofd (fst r)) (k_fs (fst r)),
+       snd r, false)
   | KNotFound =>
       (* external.rs: "utility not found" is reported while the redirections
          are in effect *)
@@ -387,9 +405,21 @@ Inductive item :=
 | IPipe (n : nat)              (* a pipeline of n >= 2 commands *)
 | IStartup (p : pth)           (* the shell opens the script it was started with *)
 | ILimit (l : option N)        (* setrlimit(RLIMIT_NOFILE) soft limit *)
-| INoclobber (b : bool).       (* set -C / set +C *)
+| INoclobber (b : bool)        (* set -C / set +C *)
+| IErrexit (b : bool).         (* set -e / set +e *)
 
-Record shell := mkSh { sh_k : kst; sh_nc : bool }.
+Record shell := mkSh { sh_k : kst; sh_nc : bool; sh_ee : bool (* errexit *) }.
+
+Definition with_k (sh : shell) (s : kst) : shell := mkSh s (sh_nc sh) (sh_ee sh).
+
+(* the command ends with a non-zero exit status: a redirection failed, or the
+   utility was not found *)
+Definition cmd_fails (nc : bool) (s : kst) (c : cmd) : bool :=
+  match c_kind c with
+  | KAsync => false
+  | KNotFound | KExecFail _ => true
+  | _ => negb (snd (perform_redirs nc s (c_redirs c) []))
+  end.
 
 (* one observable step: the state seen inside (if any), the state after, and
    whether the shell exits *)
@@ -419,24 +449,28 @@ Definition run_list_with (f : shell -> item -> list out * shell * bool) :=
 Fixpoint run_item (sh : shell) (i : item) : list out * shell * bool :=
   match i with
   | ICmd c =>
+      (* errexit: a command that fails makes the shell exit *)
       let '(s', inside, ex) := run_cmd (sh_nc sh) (sh_k sh) c in
-      ([(inside, s', ex)], mkSh s' (sh_nc sh), ex)
+      let ex' := ex || (sh_ee sh && cmd_fails (sh_nc sh) (sh_k sh) c) in
+      ([(inside, s', ex')], with_k sh s', ex')
   | ILimit l =>
-      let s' := with_lim (sh_k sh) l in ([(None, s', false)], mkSh s' (sh_nc sh), false)
-  | INoclobber b => ([(None, sh_k sh, false)], mkSh (sh_k sh) b, false)
+      let s' := with_lim (sh_k sh) l in ([(None, s', false)], with_k sh s', false)
+  | INoclobber b => ([(None, sh_k sh, false)], mkSh (sh_k sh) b (sh_ee sh), false)
+  | IErrexit b => ([(None, sh_k sh, false)], mkSh (sh_k sh) (sh_nc sh) b, false)
   | IGroup k rs body =>
       let '(s1, stack, ok) := perform_redirs (sh_nc sh) (sh_k sh) rs [] in
       if ok then
-        let '(ob, shb, ex) := run_list_with run_item (mkSh s1 (sh_nc sh)) body in
+        let '(ob, shb, ex) := run_list_with run_item (with_k sh s1) body in
         if ex then
           ((Some s1, s1, false) :: patch_last (fun a => undo_redirs a stack) ob,
-           mkSh (undo_redirs (sh_k shb) stack) (sh_nc shb), true)
+           with_k shb (undo_redirs (sh_k shb) stack), true)
         else
           let s' := undo_redirs (sh_k shb) stack in
-          ((Some s1, s1, false) :: ob ++ [(None, s', false)], mkSh s' (sh_nc shb), false)
+          ((Some s1, s1, false) :: ob ++ [(None, s', false)], with_k shb s', false)
       else
+        (* compound_command.rs: apply_errexit *)
         let s' := undo_redirs (stderr_write s1) stack in
-        ([(None, s', false)], mkSh s' (sh_nc sh), false)
+        ([(None, s', sh_ee sh)], with_k sh s', sh_ee sh)
   | IDot via rs p body =>
       (* `.` is a special built-in: an error makes the shell exit, unless it is
          run through `command` *)
@@ -445,29 +479,30 @@ Fixpoint run_item (sh : shell) (i : item) : list out * shell * bool :=
         match open_internal s1 p with
         | (s2, Some fd) =>
             let fin := fun a => undo_redirs (k_close a fd) stack in
-            let '(ob, shb, ex) := run_list_with run_item (mkSh s2 (sh_nc sh)) body in
+            let '(ob, shb, ex) := run_list_with run_item (with_k sh s2) body in
             if ex then
-              ((Some s2, s2, false) :: patch_last fin ob, mkSh (fin (sh_k shb)) (sh_nc shb), true)
+              ((Some s2, s2, false) :: patch_last fin ob, with_k shb (fin (sh_k shb)), true)
             else
               let s' := fin (sh_k shb) in
-              ((Some s2, s2, false) :: ob ++ [(None, s', false)], mkSh s' (sh_nc shb), false)
+              ((Some s2, s2, false) :: ob ++ [(None, s', false)], with_k shb s', false)
         | (s2, None) =>
             let s' := undo_redirs (stderr_write s2) stack in
-            ([(None, s', negb via)], mkSh s' (sh_nc sh), negb via)
+            ([(None, s', negb via || sh_ee sh)], with_k sh s', negb via || sh_ee sh)
         end
       else
         let s' := undo_redirs (stderr_write s1) stack in
-        ([(None, s', negb via)], mkSh s' (sh_nc sh), negb via)
+        ([(None, s', negb via || sh_ee sh)], with_k sh s', negb via || sh_ee sh)
   | ISubst c =>
       (* the words are expanded before the redirections are performed; an
          expansion error makes the shell exit *)
       match k_pipe (sh_k sh) with
       | (s1, Ok (r, w)) =>
           let s2 := k_close (k_close s1 w) r in
-          let '(s', inside, ex) := run_cmd (sh_nc sh) s2 c in
-          ([(subst_child s1 r w, s', ex); (inside, s', ex)], mkSh s' (sh_nc sh), ex)
+          let '(s', inside, ex0) := run_cmd (sh_nc sh) s2 c in
+          let ex := ex0 || (sh_ee sh && cmd_fails (sh_nc sh) s2 c) in
+          ([(subst_child s1 r w, s', ex); (inside, s', ex)], with_k sh s', ex)
       | (s1, Err _) =>
-          let s' := stderr_write s1 in ([(None, s', true)], mkSh s' (sh_nc sh), true)
+          let s' := stderr_write s1 in ([(None, s', true)], with_k sh s', true)
       end
   | IPipe n =>
       let '(s', children, ok) := run_pipeline (sh_k sh) n in
@@ -475,11 +510,11 @@ Fixpoint run_item (sh : shell) (i : item) : list out * shell * bool :=
       (* one step per child that was started (a child that gives up shows
          nothing) *)
       let steps := map (fun ch : option kst => (ch, s', ex)) children in
-      (match steps with [] => [(None, s', ex)] | _ => steps end, mkSh s' (sh_nc sh), ex)
+      (match steps with [] => [(None, s', ex)] | _ => steps end, with_k sh s', ex)
   | IStartup p =>
       match open_internal (sh_k sh) p with
-      | (s', Some _) => ([(None, s', false)], mkSh s' (sh_nc sh), false)
-      | (s', None) => ([(None, s', true)], mkSh s' (sh_nc sh), true)
+      | (s', Some _) => ([(None, s', false)], with_k sh s', false)
+      | (s', None) => ([(None, s', true)], with_k sh s', true)
       end
   end.
 
@@ -496,5 +531,5 @@ Fixpoint transient (i : item) : bool :=
   | IPipe _ => true
   | IStartup _ => false
   | ILimit _ => false
-  | INoclobber _ => true
+  | INoclobber _ | IErrexit _ => true
   end.
